@@ -67,6 +67,8 @@ use crate::record::ReadableShape;
 use crate::{Error, Shape};
 
 const INDEX_RECORD_SIZE: usize = 2 * std::mem::size_of::<i32>();
+/// Upper bound of the number of index entries allocated before any of them has been read
+const MAX_INDEX_PREALLOCATION: usize = 4096;
 
 #[derive(Copy, Clone)]
 pub(crate) struct ShapeIndex {
@@ -75,6 +77,16 @@ pub(crate) struct ShapeIndex {
 }
 
 impl ShapeIndex {
+    /// Offset in bytes of the record header (stored in 16-bit words in the file)
+    pub(crate) fn byte_offset(self) -> std::io::Result<u64> {
+        u64::try_from(i64::from(self.offset) * 2).map_err(|_| {
+            std::io::Error::new(
+                std::io::ErrorKind::InvalidData,
+                "negative record offset in the index file",
+            )
+        })
+    }
+
     pub(crate) fn write_to<W: Write>(self, dest: &mut W) -> std::io::Result<()> {
         dest.write_i32::<BigEndian>(self.offset)?;
         dest.write_i32::<BigEndian>(self.record_size)?;
@@ -86,8 +98,13 @@ impl ShapeIndex {
 fn read_index_file<T: Read>(mut source: T) -> Result<Vec<ShapeIndex>, Error> {
     let header = header::Header::read_from(&mut source)?;
 
-    let num_shapes = ((header.file_length * 2) - header::HEADER_SIZE) / INDEX_RECORD_SIZE as i32;
-    let mut shapes_index = Vec::<ShapeIndex>::with_capacity(num_shapes as usize);
+    // The length comes from the file: do the arithmetic where it cannot overflow, and do not
+    // trust it to size the allocation (the entries may not be there).
+    let num_shapes = ((i64::from(header.file_length) * 2) - i64::from(header::HEADER_SIZE))
+        / INDEX_RECORD_SIZE as i64;
+    let num_shapes = usize::try_from(num_shapes).unwrap_or(0);
+    let mut shapes_index =
+        Vec::<ShapeIndex>::with_capacity(num_shapes.min(MAX_INDEX_PREALLOCATION));
     for _ in 0..num_shapes {
         let offset = source.read_i32::<BigEndian>()?;
         let record_size = source.read_i32::<BigEndian>()?;
@@ -104,7 +121,12 @@ fn read_one_shape_as<T: Read, S: ReadableShape>(
     mut source: &mut T,
 ) -> Result<(record::RecordHeader, S), Error> {
     let hdr = record::RecordHeader::read_from(&mut source)?;
-    let record_size = hdr.record_size * 2;
+    // in 16-bit words in the file, a negative or overflowing length is not a valid one
+    let record_size = hdr
+        .record_size
+        .checked_mul(2)
+        .filter(|size| *size >= 0)
+        .ok_or(Error::InvalidShapeRecordSize)?;
     let shape = S::read_from(&mut source, record_size)?;
     Ok((hdr, shape))
 }
@@ -135,9 +157,12 @@ impl<T: Read + Seek, S: ReadableShape> Iterator for ShapeIterator<'_, T, S> {
                 // Its 'safer' to seek to the shape offset when we have the `shx` file
                 // as some shapes may not be stored sequentially and may contain 'garbage'
                 // bytes between them
-                let start_pos = shapes_indices.next()?.offset * 2;
-                if start_pos != self.current_pos as i32 {
-                    if let Err(err) = self.source.seek(SeekFrom::Start(start_pos as u64)) {
+                let start_pos = match shapes_indices.next()?.byte_offset() {
+                    Ok(pos) => pos,
+                    Err(err) => return Some(Err(err.into())),
+                };
+                if start_pos != self.current_pos as u64 {
+                    if let Err(err) = self.source.seek(SeekFrom::Start(start_pos)) {
                         return Some(Err(err.into()));
                     }
                     self.current_pos = start_pos as usize;
@@ -148,6 +173,7 @@ impl<T: Read + Seek, S: ReadableShape> Iterator for ShapeIterator<'_, T, S> {
                 Ok(hdr_and_shape) => hdr_and_shape,
             };
             self.current_pos += record::RecordHeader::SIZE;
+            // read_one_shape_as checked that the size is not negative and can be doubled
             self.current_pos += hdr.record_size as usize * 2;
             Some(Ok(shape))
         }
@@ -355,7 +381,9 @@ impl<T: Read + Seek> ShapeReader<T> {
             _shape: std::marker::PhantomData,
             source: &mut self.source,
             current_pos: header::HEADER_SIZE as usize,
-            file_length: (self.header.file_length as usize) * 2,
+            file_length: usize::try_from(self.header.file_length)
+                .unwrap_or(0)
+                .saturating_mul(2),
             shapes_indices: self.shapes_index.as_ref().map(|s| s.iter()),
         }
     }
@@ -453,12 +481,10 @@ impl<T: Read + Seek> ShapeReader<T> {
     /// was not constructed with [ShapeReader::with_shx]
     pub fn seek(&mut self, index: usize) -> Result<(), Error> {
         if let Some(ref shapes_index) = self.shapes_index {
-            let offset = shapes_index
-                .get(index)
-                .map(|shape_idx| (shape_idx.offset * 2) as u64);
-
-            match offset {
-                Some(n) => self.source.seek(SeekFrom::Start(n)),
+            match shapes_index.get(index) {
+                Some(shape_idx) => self
+                    .source
+                    .seek(SeekFrom::Start(shape_idx.byte_offset()?)),
                 None => self.source.seek(SeekFrom::End(0)),
             }?;
             Ok(())
